@@ -34,7 +34,9 @@ def telingo_accepts(prog):
         os.unlink(path)
     err = p.stderr + p.stdout
     bad = ('ERROR' in err) or ('Traceback' in err) or ('error:' in err)
-    return (not bad), err[-600:]
+    # the diagnosis ('error: ...' / 'info: ...' lines) comes before the traceback: keep those lines and the tail
+    diag = '\n'.join(l for l in err.split('\n') if 'error:' in l or 'info:' in l or 'missing definition' in l)
+    return (not bad), (diag[:600] + '\n' + err[-600:])
 
 
 def value_cases(rnd, tier):
@@ -63,6 +65,11 @@ def run(tier, seed):
     proof = common.build_property(PID, extra=['Asp/PrintCases.vo', 'Cnl/ValuesCases.vo'])
     findings = {f['id']: f for f in common.load_findings(PID) if f.get('status') == 'known'}
     specs = stream.specs(tier, seed, n_quick=220)
+    # directed: the witness of every known finding of the temporal printer is part of every run (the finding must still be there)
+    specs += [('directed/primes-in-formula', 'A p is identified by an id.\nA q is identified by an id.\n'
+               'Whenever there is previously a p with id 1 and a q with id 2, then we can have a h.\n', None),
+              ('directed/negated-entity-in-formula', 'A p is identified by an id.\nA q is identified by an id.\n'
+               'Whenever there is a p with id 1 or there is not a q with id 2, then we can have a h.\n', None)]
     res = stream.objects_many([t for _, t, _ in specs])
     pcases, pmeta = [], []
     st = dict(parsed=0, grounded=0, temporal=0, rejected=0, corpus_ground_failures=0)
